@@ -417,3 +417,25 @@ func SetExtraIfAny(key string, v interface{}) {
 		u.Extra[key] = v
 	}
 }
+
+// RecordBulk adds the counts of an enumerating unit whose cases are evaluated in
+// bulk (inside a worker): n evaluations of which nontrivial are non-trivial; the
+// enumeration produces each input once, so every non-trivial one is distinct.
+func RecordBulk(unitName string, n, nontrivial int, what string, samples []interface{}) {
+	statMu.Lock()
+	defer statMu.Unlock()
+	u := unit(unitName)
+	shard, _ := Shard()
+	base := hashCase(fmt.Sprintf("%s/%d/%d", unitName, shard, len(u.hashes)))
+	for i := 0; i < nontrivial; i++ {
+		u.hashes[base+uint64(i)*0x9e3779b97f4a7c15] = struct{}{}
+	}
+	u.Evaluations += n
+	u.Nontrivial += nontrivial
+	u.Labels[what] += n
+	for _, s := range samples {
+		if len(u.Samples) < 6 {
+			u.Samples = append(u.Samples, render(s))
+		}
+	}
+}
